@@ -2,7 +2,8 @@
 
 Case kinds of harness command `core` (harness_core/src/core.rs):
   exec <program> <pdl> <input>      -> see core.rs for the result layout
-Model entry points: coq/Core/Run.v (run_exec, run_limits, run_eval, run_jet_names).
+Model entry points: coq/Core/Run.v (run_limits), coq/Core/Run2.v (run_exec2, run_eval2, run_jet_names2: the
+same functions over the extended jet dispatcher of coq/Jets/JetSpecAll.v).
 """
 import os
 
@@ -16,7 +17,18 @@ except ImportError:  # pragma: no cover
     core_jets = None
 
 CRATE = None  # merged into the main harness crate
-IMPORTS = ["Lib.Outcome", "Ty.Ty", "Core.Prog", "Core.Term", "Core.Bounds", "Core.Machine", "Core.Run"]
+IMPORTS = ["Lib.Outcome", "Ty.Ty", "Core.Prog", "Core.Term", "Core.Bounds", "Core.Machine", "Core.Run", "Core.Run2", "Core.RunV"]
+# Print Assumptions of the theorems about the extended jet dispatcher lists the Uint63 primitives of Merkle/Sha256.v;
+# coqchk (thorough tier) lists every primitive and axiom of Coq.Numbers.Cyclic.Int63 in the closure of the library,
+# whether used or not: the same list as C09 (tools/props/c09.py)
+try:
+    from props import c09 as _c09
+    UINT63_PRIMS = list(_c09.UINT63_PRIMS)
+except Exception:  # pragma: no cover
+    UINT63_PRIMS = ["int", "add", "sub", "land", "lor", "lxor", "lsl", "lsr", "eqb",
+                    "PrimInt63.int", "PrimInt63.add", "PrimInt63.sub", "PrimInt63.land",
+                    "PrimInt63.lor", "PrimInt63.lxor", "PrimInt63.lsl", "PrimInt63.lsr", "PrimInt63.eqb"]
+EXTRA_TARGETS = ["Core/Run.vo", "Core/Run2.vo", "Core/RunV.vo"]
 MAX_CELLS = 2 * 1024 * 1024 * 1024 - 1
 MAX_FRAMES = 1024 * 1024
 USIZE_MAX = 2**64 - 1
@@ -85,12 +97,12 @@ _spec_names = {}
 
 
 def specified_jets(workdir):
-    """ids and names of the jets specified in coq/Jets/JetSpec.v (evaluated in Coq)"""
+    """ids and names of the jets specified in coq/Jets/JetSpec.v and JetSpecSha.v (evaluated in Coq)"""
     if "v" not in _spec_names:
-        vals, logs = vplib.coq_eval(IMPORTS, ["List.concat (map (fun l => N.of_nat (List.length l) :: l) run_jet_names)"],
+        vals, logs = vplib.coq_eval(IMPORTS, ["List.concat (map (fun l => N.of_nat (List.length l) :: l) run_jet_names2)"],
                                     workdir=workdir, tag="jetnames")
         if vals[0] is None:
-            raise vplib.Infra("cannot evaluate run_jet_names:\n" + logs[0][-2000:])
+            raise vplib.Infra("cannot evaluate run_jet_names2:\n" + logs[0][-2000:])
         flat = vals[0]
         out = {}
         pos = 0
@@ -104,8 +116,30 @@ def specified_jets(workdir):
 
 
 # ------------------------------------------------------------------ rendering for Coq
+_ty_str_cache = {}
+
+
+def _cached(fn, t):
+    """pg.ty_coq / pg.ty_pdl hash the (nested tuple) type at every level; the jet types (CTX8, 4096-bit words) are shared
+    objects, so the strings are cached by object identity (the object is kept alive in the cache)"""
+    k = (fn.__name__, id(t))
+    e = _ty_str_cache.get(k)
+    if e is None or e[0] is not t:
+        e = (t, fn(t))
+        _ty_str_cache[k] = e
+    return e[1]
+
+
+def ty_coq(t):
+    return _cached(pg.ty_coq, t)
+
+
+def ty_pdl(t):
+    return _cached(pg.ty_pdl, t)
+
+
 def coq_arrow(ar):
-    return "None" if ar is None else "(Some (%s, %s))" % (pg.ty_coq(ar[0]), pg.ty_coq(ar[1]))
+    return "None" if ar is None else "(Some (%s, %s))" % (ty_coq(ar[0]), ty_coq(ar[1]))
 
 
 def node_coq(n, jet_ids):
@@ -132,7 +166,7 @@ def coq_input(inp):
     if inp is None:
         return "None"
     t, bits = inp
-    return "(Some (%s, %s))" % (pg.ty_coq(t), vplib.coq_list(bits))
+    return "(Some (%s, %s))" % (ty_coq(t), vplib.coq_list(bits))
 
 
 def rand_padded(rng, t, v, dirty=True):
@@ -290,6 +324,85 @@ def split_exec(r):
     return d
 
 
+def split_execv(r):
+    """decompose a `core execv` result (Value-level observation of the same run)"""
+    d = {"raw": r}
+    if not isinstance(r, list) or not r:
+        d["tag"] = "crash"
+        return d
+    if r[0] == 9:
+        d["tag"] = "panic-early"
+        return d
+    if r[0] == 3:
+        d["tag"] = "build"
+        d["code"] = r[1] if len(r) > 1 else -1
+        return d
+    d.update(zip(("sw", "tw", "ec", "ef", "cost"), r[1:6]))
+    if r[0] == 2:
+        d["tag"] = "limit"
+        return d
+    d["capc"], d["capf"], d["wt"] = r[6], r[7], r[8]
+    v = r[9:]
+    if v[0] == 9:
+        d["tag"] = "panic"
+        return d
+    d["hwc"], d["hwf"] = v[1], v[2]
+    if v[0] == 0:
+        d["tag"] = "ok"
+        d["in_off"], n = v[3], v[4]
+        d["in_bytes"] = v[5:5 + n]
+        pos = 5 + n
+        d["out_off"], m = v[pos], v[pos + 1]
+        d["out_bytes"] = v[pos + 2:pos + 2 + m]
+        d["is_target_ty"], d["is_unit_ty"] = v[pos + 2 + m], v[pos + 3 + m]
+    else:
+        d["tag"] = "err"
+        d["err"] = v[3]
+        d["data"] = v[4:]
+    return d
+
+
+def value_layout(bits):
+    """buffer bytes of Value::from_padded_bits on a bit string: the whole bytes, then always one more byte holding the
+    remaining bits left-aligned"""
+    n = len(bits) // 8
+    out = []
+    for i in range(n):
+        x = 0
+        for b in bits[8 * i:8 * i + 8]:
+            x = 2 * x + b
+        out.append(x)
+    last = 0
+    for i, b in enumerate(bits[8 * n:]):
+        if b:
+            last |= 1 << (7 - i)
+    return out + [last]
+
+
+def bits_at(bytes_, off, n):
+    return [(bytes_[(off + i) // 8] >> (7 - (off + i) % 8)) & 1 for i in range(n)]
+
+
+PAD_TYPES = [pg.U, pg.BIT, pg.word(1), pg.S(pg.U, pg.word(1)), pg.P(pg.BIT, pg.word(2)), pg.word(3), pg.P(pg.word(3), pg.BIT)]
+
+
+def make_execv_case(cid, prog, arrows, cmrs, inp, padty, padbits, jet_ids, costs, prof=0, meta=None):
+    """Value-level case: inp = None | (type, padded bits); the input Value is the right component of a Value of type
+    padty * type decoded from padbits ++ bits (padty = unit: no product)"""
+    if inp is None:
+        line = "0 %s -" % pg.prog_pdl(prog)
+        coq_in = "None"
+    else:
+        line = "0 %s %s:%s:%s:%s" % (pg.prog_pdl(prog), ty_pdl(padty), pg.bstr(padbits), ty_pdl(inp[0]), pg.bstr(inp[1]))
+        raw = value_layout(list(padbits) + list(inp[1]))
+        coq_in = "(Some (%s, %d, %s))" % (vplib.coq_list(raw), pg.width(padty), ty_coq(inp[0]))
+    expr = "run_exec_v %d %s %s %s %s" % (prof, coq_typed_prog(prog, arrows, jet_ids), coq_cmrs(cmrs),
+                                          coq_costs(prog, jet_ids, costs), coq_in)
+    m = {"prog": prog, "arrows": arrows, "cmrs": cmrs, "inp": inp, "padty": padty}
+    m.update(meta or {})
+    return Case(cid, "execv", line, expr, m)
+
+
 # ------------------------------------------------------------------ generation
 def gen_types(rng, deep):
     return pg.rand_ty(rng, rng.range(0, 3 if deep else 2))
@@ -335,10 +448,10 @@ def interesting(prog, arrows):
 
 def make_exec_case(cid, prog, arrows, cmrs, inp, jet_ids, costs, prof=0, meta=None, model=True):
     """inp: None | (type, padded bits)"""
-    line = "0 %s %s" % (pg.prog_pdl(prog), "-" if inp is None else "%s:%s" % (pg.ty_pdl(inp[0]), pg.bstr(inp[1])))
+    line = "0 %s %s" % (pg.prog_pdl(prog), "-" if inp is None else "%s:%s" % (ty_pdl(inp[0]), pg.bstr(inp[1])))
     expr = None
     if model:
-        expr = "run_exec %d %s %s %s %s" % (prof, coq_typed_prog(prog, arrows, jet_ids), coq_cmrs(cmrs),
+        expr = "run_exec2 %d %s %s %s %s" % (prof, coq_typed_prog(prog, arrows, jet_ids), coq_cmrs(cmrs),
                                             coq_costs(prog, jet_ids, costs), coq_input(inp))
     m = {"prog": prog, "arrows": arrows, "cmrs": cmrs, "inp": inp}
     m.update(meta or {})
@@ -488,4 +601,105 @@ def template_programs(rng, count_disc=6):
             nodes.append(("disc", i, r))
             nodes.append(("comp", c, len(nodes) - 1))
             out.append(nodes)
+    out += disc_width_programs(rng, const_of)
+    out += aligned_copy_programs(rng, (1, 2, 4, 9) if count_disc <= 6 else (1, 2, 3, 4, 5, 8, 9, 16, 32, 33))
     return [pg.compact_prog(n) for n in out]
+
+
+def words_of_width(nodes, w, rng):
+    """append a term 1 -> T with width(T) = w made of word constants with random bits (binary decomposition of w,
+    largest word first); returns its index"""
+    if w == 0:
+        nodes.append(("unit",))
+        return len(nodes) - 1
+    parts = []
+    for n in range(w.bit_length() - 1, -1, -1):
+        if (w >> n) & 1:
+            nodes.append(("word", n, rng.bits(2 ** n)))
+            parts.append(len(nodes) - 1)
+    t = parts[-1]
+    for p in reversed(parts[:-1]):
+        nodes.append(("pair", p, t))
+        t = len(nodes) - 1
+    return t
+
+
+def aligned_copy_programs(rng, ks):
+    """copies (iden, take iden, drop iden) of 8k + r bits, r = 1..7 and 0, whose source cursor AND destination cursor are
+    multiples of 8: the output frame starts at cell 0 (no input), is padded to whole bytes, and the comp frame holding the
+    data starts right after it.  The data are random word constants, so the first and the last r bits differ with high
+    probability: a block copy that mishandles the tail of a byte-aligned copy yields a wrong output value."""
+    out = []
+    for k in ks:
+        for r in range(0, 8):
+            w = 8 * k + r
+            pad = (8 - r) % 8
+            for shape in ("iden", "take", "drop"):
+                nodes = []
+                x = words_of_width(nodes, w, rng)
+                if shape == "iden":
+                    src = x
+                    nodes.append(("iden",))
+                    body = len(nodes) - 1
+                elif shape == "take":
+                    y = words_of_width(nodes, pad or 8, rng)
+                    nodes.append(("pair", x, y))
+                    src = len(nodes) - 1
+                    nodes.append(("iden",))
+                    nodes.append(("take", len(nodes) - 1))
+                    body = len(nodes) - 1
+                else:
+                    y = words_of_width(nodes, 8, rng)
+                    nodes.append(("pair", y, x))
+                    src = len(nodes) - 1
+                    nodes.append(("iden",))
+                    nodes.append(("drop", len(nodes) - 1))
+                    body = len(nodes) - 1
+                nodes.append(("comp", src, body))
+                c = len(nodes) - 1
+                if pad:
+                    p = words_of_width(nodes, pad, rng)
+                    nodes.append(("pair", c, p))
+                out.append(nodes)
+    return out
+
+
+def disc_width_programs(rng, const_of):
+    """disconnect (left : 2^256 * A -> B * C) (right : C -> D) with |C| != |D| in both directions and B of non-zero width,
+    the result read afterwards: the width of B is |B * C| - |C| (not - |D|), and the bound on the cells is taken from the
+    left child's target B * C (not from the node's own target B * D)"""
+    out = []
+    for A in SMALL_TYPES[1:]:
+        for v in pg.all_values(A, 2):
+            for lshape in ("AA", "WA"):
+                rights = ["dup", "unit", "injl", "injr"] + (["take", "drop"] if A[0] == "p" else [])
+                for rshape in rights:
+                    nodes = []
+                    c = const_of(nodes, A, v)
+                    nodes.append(("iden",))
+                    nodes.append(("drop", len(nodes) - 1))
+                    d1 = len(nodes) - 1                                  # drop iden : 2^256 * A -> A
+                    if lshape == "AA":
+                        nodes.append(("iden",))
+                        nodes.append(("drop", len(nodes) - 1))
+                        b = len(nodes) - 1                               # B = A
+                    else:
+                        nodes.append(("iden",))
+                        nodes.append(("take", len(nodes) - 1))
+                        b = len(nodes) - 1                               # B = 2^256 (the CMR of the right branch)
+                    nodes.append(("pair", b, d1))
+                    left = len(nodes) - 1
+                    nodes.append(("iden",))
+                    i = len(nodes) - 1
+                    if rshape == "dup":
+                        nodes.append(("iden",))
+                        nodes.append(("pair", i, len(nodes) - 1))        # D = A * A (wider)
+                    elif rshape == "unit":
+                        nodes.append(("unit",))                          # D = 1 (narrower)
+                    elif rshape in ("injl", "injr", "take", "drop"):
+                        nodes.append((rshape, i))                        # D = A + 1 / 1 + A (one cell wider), a component (narrower)
+                    right = len(nodes) - 1
+                    nodes.append(("disc", left, right))
+                    nodes.append(("comp", c, len(nodes) - 1))
+                    out.append(nodes)
+    return out
